@@ -36,6 +36,10 @@ pub struct SchedCase {
 	pub steps: Vec<u8>,
 	pub callbacks: usize,
 	pub switch_prob: f64,
+	/// Some(n): instead of the ownership race, a reader task polls `TrackHandle::state()` n times
+	/// while the audio thread cancels a resume whose clock has been removed
+	#[serde(default)]
+	pub state_reads: Option<usize>,
 }
 
 pub fn gen(rng: &mut Rng, _tier: Tier) -> SchedCase {
@@ -51,10 +55,139 @@ pub fn gen(rng: &mut Rng, _tier: Tier) -> SchedCase {
 		steps,
 		callbacks: rng.urange(1, 5),
 		switch_prob: *rng.pick(&[0.1, 0.3, 0.6, 0.9]),
+		state_reads: if rng.chance(0.3) { Some(rng.urange(2, 12)) } else { None },
 	}
 }
 
+/// The track waits to resume at a clock time; the clock is removed; the audio thread notices in its
+/// next callback while a reader polls `state()`: it must see Paused / WaitingToResume, never panic.
+fn run_state_race(case: &SchedCase, reads: usize) -> CaseResult {
+	use kira::{clock::ClockSpeed, clock::ClockTime, track::TrackPlaybackState, StartTime, Tween};
+	let mut res = CaseResult::default();
+	let sim = Sim::new(case.seed);
+	sim.set_random_params(case.switch_prob, 0.2, 60_000);
+	let manager = monitor::catch(|| {
+		AudioManager::<SimBackend>::new(AudioManagerSettings {
+			internal_buffer_size: 8,
+			backend_settings: SimBackendSettings { sample_rate: 8000 },
+			..Default::default()
+		})
+		.unwrap()
+	});
+	let Ok(mut manager) = manager else {
+		sim.shutdown();
+		return res;
+	};
+	let device = manager.backend_mut().device.clone();
+	let instant = Tween {
+		duration: std::time::Duration::ZERO,
+		..Default::default()
+	};
+	let built = monitor::catch(|| {
+		let clock = manager.add_clock(ClockSpeed::TicksPerSecond(10.0)).unwrap();
+		let mut track = manager.add_sub_track(TrackBuilder::new()).unwrap();
+		track.pause(instant);
+		(clock, track)
+	});
+	let Ok((clock, mut track)) = built else {
+		sim.shutdown();
+		return res;
+	};
+	let mut out = Vec::new();
+	let _ = device.callback(8, 2, &mut out);
+	track.resume_at(
+		StartTime::ClockTime(ClockTime {
+			clock: clock.id(),
+			ticks: 1000,
+			fraction: 0.0,
+		}),
+		instant,
+	);
+	for _ in 0..1 + case.warm {
+		let _ = device.callback(8, 2, &mut out);
+	}
+	drop(clock);
+	let seen: Arc<Mutex<Vec<TrackPlaybackState>>> = Arc::new(Mutex::new(vec![]));
+	let track = Arc::new(Mutex::new(Some(track)));
+	{
+		let (track, seen) = (track.clone(), seen.clone());
+		sim.spawn_task(
+			"reader",
+			Role::Gameplay,
+			Box::new(move || {
+				let g = track.lock().unwrap();
+				for _ in 0..reads {
+					seen.lock().unwrap().push(g.as_ref().unwrap().state());
+					kira::verif::yield_point("reader.between_reads");
+				}
+			}),
+		);
+	}
+	{
+		let (device, n) = (device.clone(), case.callbacks);
+		sim.spawn_task(
+			"audio",
+			Role::Audio,
+			Box::new(move || {
+				let mut out = Vec::new();
+				for _ in 0..n {
+					let rep = device.callback(8, 2, &mut out);
+					if let Some(p) = rep.panic {
+						panic!("{p}");
+					}
+					kira::verif::yield_point("audio.between_callbacks");
+				}
+			}),
+		);
+	}
+	sim.run_random();
+	res.count("context_switches", sim.switches());
+	if sim.capped() {
+		res.inconclusive = true;
+	}
+	for (role, name, msg) in sim.take_panics() {
+		res.fail(Violation::new(
+			"no-panic",
+			format!("task-panic: {}", panic_signature(&msg)),
+			format!("{role:?} task {name} panicked: {msg} (a reader polling TrackHandle::state() while the audio thread cancels a resume_at whose clock was removed)"),
+		));
+	}
+	let _ = device.callback(8, 2, &mut out);
+	// (the reader holds this lock while it polls: a panic inside state() poisons it)
+	let g = track.lock().unwrap_or_else(|e| e.into_inner());
+	let final_state = monitor::catch(|| g.as_ref().unwrap().state());
+	if res.violation.is_none() {
+		match final_state {
+			Ok(TrackPlaybackState::Paused) => {}
+			other => res.fail(Violation::new(
+				"state",
+				"cancelled-resume-does-not-leave-the-track-paused",
+				format!("after the clock of a pending resume_at was removed the track reports {other:?}, expected Paused"),
+			)),
+		}
+		for st in seen.lock().unwrap_or_else(|e| e.into_inner()).iter() {
+			if !matches!(st, TrackPlaybackState::Paused | TrackPlaybackState::WaitingToResume) {
+				res.fail(Violation::new("state", "impossible-state-seen", format!("a concurrent reader saw {st:?} on a track that is waiting to resume / paused")));
+				break;
+			}
+		}
+	}
+	res.count("concurrent_state_reads", seen.lock().unwrap_or_else(|e| e.into_inner()).len() as u64);
+	res.nontrivial = true;
+	res.callbacks = (3 + case.warm + case.callbacks) as u64;
+	res.hit("type.sched_state_race");
+	res.trace_hash = sim.trace_hash();
+	res.behaviour_sig = sim.trace_hash() ^ 0x5157;
+	drop(g);
+	drop(manager);
+	sim.shutdown();
+	res
+}
+
 pub fn run(case: &SchedCase) -> CaseResult {
+	if let Some(n) = case.state_reads {
+		return run_state_race(case, n);
+	}
 	let mut res = CaseResult::default();
 	let mut beh = Hasher64::new();
 	let sim = Sim::new(case.seed);
